@@ -334,10 +334,17 @@ func signature(metric labels.Labels, without bool, grouping []string, keepOrigin
 func buildOutputSeries(seriesID uint64, highCardSeries, lowCardSeries model.Series, includeLabels []string) model.Series {
 	metric := highCardSeries.Metric
 	if len(includeLabels) > 0 {
-		lowCardLabels := labels.NewBuilder(lowCardSeries.Metric).
-			Keep(includeLabels...).
-			Labels(nil)
-		metric = append(metric, lowCardLabels...)
+		// Labels included by group_left/group_right are taken from the "one" side: they
+		// replace a label of the same name and are removed if the "one" side lacks them.
+		lb := labels.NewBuilder(metric)
+		for _, name := range includeLabels {
+			if value := lowCardSeries.Metric.Get(name); value != "" {
+				lb.Set(name, value)
+			} else {
+				lb.Del(name)
+			}
+		}
+		metric = lb.Labels(nil)
 	}
 	return model.Series{ID: seriesID, Metric: metric}
 }
